@@ -32,7 +32,7 @@ RULE = ("one run = (platform {Ledger, SGX}, command {onboard, unlock, changepin,
         "0..2 invalid attempts (incl. letters / digits outside ASCII, the PIN with a stray blank / tab / CR), --anypin, answers yes / no / "
         "other-then-yes / other-then-no / 3..5 non-answers then no or EOF, --nounlock, "
         "--noexec}); enumerated: the full product of the enum dimensions; seeded: PIN strings and "
-        "entropy, a failing onboarded query, one link fault addressed by instruction, a blank device "
+        "entropy, a failing onboarded or mode query, one link fault addressed by instruction, a blank device "
         "after the re-plug, and the device replaced by another one (onboarded / unlocked / blank) while "
         "the tool waits at its first or second prompt; non-trivial = at least one APDU reached the device; distinct = the scenario tuple")
 MUTANT_WALL = 150
@@ -98,10 +98,14 @@ def run_one(ch, cfg):
     onb_err = None
     if ch.draw(8, "onboarded-query-fails") == 1:
         onb_err = ch.pick([0x6E00, 0x6F01, 0x6985, 0x6A99, 0x6D00], "onboarded-query.status")
+    # ... or the mode query does (same conclusion: nothing that presupposes bootloader mode)
+    mode_err = None
+    if ch.draw(8, "mode-query-fails") == 1 and not onb_err:
+        mode_err = ch.pick([0x6E00, 0x6F01, 0x6D00, 0x6A99], "mode-query.status")
     # link fault (seeded runs, Ledger): one run in four starts from a healthy scenario of its command
     # (so that the exchanges worth faulting exist) and loses one answer / fails one exchange
     lf = ch.draw(4, "link-fault") == 1
-    link_fault_run = platform == "ledger" and not onb_err and lf
+    link_fault_run = platform == "ledger" and not onb_err and not mode_err and lf
     if link_fault_run:
         mode, echo_ok, onboarded = "bootloader", True, command != "onboard"
         pinkind, answers, any_pin, flag2, bad_attempts = "valid", ["yes"], False, False, 0
@@ -131,6 +135,8 @@ def run_one(ch, cfg):
                 "post_exit_ui_nosig": {"mode": MODE_DASHBOARD, "delay": 0.5, "silence": "read_err"}}
         if onb_err:
             dcfg["onboard_error"] = onb_err
+        if mode_err:
+            dcfg["mode_error"] = mode_err
         dev = AdminLedgerDevice(ch, clock, log, seed=seed, cfg=dcfg)
         main, prog = adm_ledger.main, "adm_ledger.py"
         pinflag = "-p"
@@ -139,6 +145,8 @@ def run_one(ch, cfg):
                 "locked": mode == "bootloader"}
         if onb_err:
             dcfg["onboard_error"] = onb_err
+        if mode_err:
+            dcfg["mode_error"] = mode_err
         dev = SgxAdminDevice(ch, clock, log, seed=seed, cfg=dcfg)
         main, prog = adm_sgx.main, "adm_sgx.py"
         pinflag = "-P"
@@ -269,7 +277,8 @@ def run_one(ch, cfg):
     in_boot = (lambda m: m == L.MODE_BOOTLOADER) if platform == "ledger" else (lambda m: m == "locked")
     # ---- V1: seed / PIN / wipe only under the onboarding preconditions
     onboard_apdus = [c for c in ctx if c[2][0] == 0x80 and c[2][1] in (0x44, 0x07, 0xA0)]
-    pre = mode == "bootloader" and echo_ok and not onboarded and said_yes and command == "onboard"
+    pre = mode == "bootloader" and echo_ok and not onboarded and said_yes and command == "onboard" \
+        and not mode_err
     if onboard_apdus and not pre:
         viol.append(("onboard/preconditions", desc))
     if command == "onboard" and platform == "ledger" and not pre:
@@ -321,7 +330,7 @@ def run_one(ch, cfg):
             viol.append(("pin/policy", desc + " sent %s PIN %r" % (kind, p)))
     # ---- V5: when the preconditions hold the operation is carried out
     good_pin = pin is not None and pin_policy_ok(pin.encode())
-    if onb_err or lfault.get("fired") or comes_back_blank or swapped:
+    if onb_err or mode_err or lfault.get("fired") or comes_back_blank or swapped:
         good_pin = False
         pinkind = pinkind if pinkind != "valid" else "valid-but-undeterminable"
     if command == "onboard" and pre and good_pin:
@@ -329,7 +338,7 @@ def run_one(ch, cfg):
             viol.append(("onboard/not-carried-out", desc))
         if platform == "ledger" and (status != 0 or "/simfs/attestation-setup.json" not in w.fs.files):
             viol.append(("onboard/attestation-setup-missing", desc + " | " + out[-200:]))
-    can_unlock = onboarded and mode == "bootloader" and echo_ok and not swapped
+    can_unlock = onboarded and mode == "bootloader" and echo_ok and not swapped and not mode_err
     if command == "unlock" and can_unlock and pinkind == "valid":
         unlocked = (dev.mode != L.MODE_BOOTLOADER) if platform == "ledger" else (not dev.locked)
         if not unlocked or status != 0:
@@ -349,7 +358,7 @@ def run_one(ch, cfg):
             want = {p: dev.pubkey_for(path_binary(p)).hex() for p in ORDERED_PATHS}
             if doc != want:
                 viol.append(("pubkeys/content", desc + " file %r" % (doc,)))
-        elif lfault.get("fired") or swapped:
+        elif lfault.get("fired") or swapped or mode_err:
             pass
         elif reached_signer and onboarded and (pinkind == "valid" or flag2 or mode == "signer"):
             if mode == "signer" and not flag2:
@@ -374,7 +383,8 @@ def run_one(ch, cfg):
 
 ENUM_LABELS = ["platform", "command", "mode", "not-onboarded", "echo-bad", "pin-kind", "pin-via-prompt",
                "invalid-attempts-first", "answers", "anypin", "nounlock/noexec", "onboarded-query-fails",
-               "link-fault", "replug-comes-back-blank", "typed.whitespace", "device-swapped-at-prompt"]
+               "mode-query-fails", "link-fault", "replug-comes-back-blank", "typed.whitespace",
+               "device-swapped-at-prompt"]
 
 
 class _Enum:
@@ -382,7 +392,7 @@ class _Enum:
         import itertools
         # the trailing zeros switch the seeded-only dimensions off (failing onboarded query, link
         # fault, blank re-plug, device swap): an enumerated case is exactly the listed scenario
-        self.items = [list(c) + [0, 0, 0, 0, 0] for c in itertools.product(*DIMS)]
+        self.items = [list(c) + [0, 0, 0, 0, 0, 0] for c in itertools.product(*DIMS)]
 
     def __len__(self):
         return len(self.items)
